@@ -285,7 +285,7 @@ func TestVerif_C01(t *testing.T) {
 		c.Rule(fmt.Sprintf("prefixed-integer boundaries (RFC 7541 section 5.1: an N-bit-prefix integer changes shape at 2^N-1 and where the remainder above it reaches 128 and 16384), same search and oracle. part seq-strlen: depth %d from the initial state and from the seeds %v over {%s}, where rawL / hufL is a name or value whose string literal is exactly L octets long on the wire (rawL = L x 'X', not Huffman-shorter; hufL = floor(8L/5) x 'a', Huffman-coded to L octets), L in %v = both sides of and on 127 (prefix max) and 255 (remainder 128), as new-name / dynamic-name literal with incremental indexing, never-indexed literal (S) and, after Peer(0), literal without indexing. part seq-strlen-pairs: depth %d from the initial state over {%s} (blocks of several boundary-length fields). part seq-strlen-long: depth %d from the same seeds over {%s}, L in %v (remainder 16384). part seq-index: depth %d from the seed %v (a table of 8192 holding %d entries x000=v..x%03d=v, xI at index %d-I) over {%s}: xI=v is an indexed field at index %v (7-bit prefix: 127, 255), xI=w a literal with incremental indexing whose name index is %v (6-bit: 63, 191; it inserts an entry, so deeper sequences also reach the neighbouring indexes), S(xI=w) a never-indexed literal with name index %v (4-bit: 143). part seq-sizeupd: depth %d from the initial state over {%s} (5-bit prefix size update: 31, 159). The evidence outcomes intN:<class> list the integer shapes the reference decoder read in accepted blocks",
 			dStr, strSeeds[1:], lab(strOps), c01StrLens, dPair, lab(pairOps), dLong, lab(longOps), c01LongStrLens, dIdx, idxSeeds[0], c01FillN, c01FillN-1, c01FillN+61, lab(idxOps), c01IdxIndexed, c01IdxIncremental, c01IdxNever, dUpd, lab(updOps)))
 		c.Assume("Table-size changes happen only between header blocks; empty header blocks are not generated; the block is fed to Decoder.Write in one piece (splits are C03).")
-		c.Assume("Outside the bound: indexes above 256+depth, string literals longer than 256 octets other than 16510..16512, prefixed integers whose remainder reaches 128^3, table sizes other than {0,30,31,32,33,70,158,159,160,4096,8192}; the length-boundary strings are runs of one octet ('X' raw, 'a' Huffman) in fields whose other half is k or v. Decoder string-length limit and SetEmitEnabled(false) are not used.")
+		c.Assume("Outside the bound: indexes above 256+depth, string literals longer than 256 octets other than 16510..16512, prefixed integers whose remainder reaches 128^3, table sizes other than {0,30,31,32,33,70,158,159,160,4096,8192}; the length-boundary strings are runs of one octet ('X' raw, 'a' Huffman) in fields whose other half is k or v. Static-table name-only matches use the one value \"zz\"; for the names that occur several times in the static table (:method, :path, :scheme, :status) only the name index the Encoder picks is reached as a literal name index (all 61 indexes are reached as Indexed Header Fields). Decoder string-length limit and SetEmitEnabled(false) are not used.")
 		c.Assume("Encoder and decoder entry lists are required to be equal only while no encoder-local SetMaxDynamicTableSizeLimit call has shrunk the encoder table in the history; after such a call the encoder table must still be the newest part of the decoder table (the encoder does not signal that low-water mark; the round trip is unaffected).")
 		c.Assume("The Huffman code table data (huffmanCodes/huffmanCodeLen) is shared with the reference decoder; C04 checks it.")
 
